@@ -79,6 +79,11 @@ class Seams:
                 self.crash()
         return act
 
+    def no_effect(self):
+        """the fault planned for the last event could not take effect (e.g. a legacy-encoding answer for ASCII-only text)"""
+        if self.trace_fd is not None:
+            os.write(self.trace_fd, f"!noeffect\t{self.n - 1}\n".encode())
+
     def permute(self, items):
         items = sorted(items, key=lambda p: os.fspath(p))
         if self.dir_rng is not None:
@@ -391,6 +396,7 @@ def install_formatter(S: Seams, fmt):
                         raw.decode("utf-8")
                     except UnicodeDecodeError:
                         return result(0, raw)
+                    S.no_effect()
                     return result(0, out.encode("utf-8"))
                 return result(0, out.encode("utf-8"))
 
